@@ -1,4 +1,9 @@
-"""Fail-closed translator for femio/util/brick_generator.py (C11).
+"""Translator for femio/util/brick_generator.py (C11).  `translate(repo)` is fail-closed;
+`translate(repo, strict_layout=False)` translates the element templates only and leaves the
+layout statements unchecked; REFERENCE holds the templates of the anchored source.  The
+harness degrades in that order (T -> templates T + layout H -> all H, each time with a deeper
+exact correspondence of generate_brick against the model) instead of reporting a rewrite of
+the generator as a violation.
 
 Translated: the element templates of `generate_element` (tri, quad, tet, hex) as
 lists of linear forms  i + c0 + c1*n_x + c2*n_xy.  Everything else (meshgrid /
@@ -97,7 +102,17 @@ def function(tree, name):
     return fs[0]
 
 
-def gen(fn, expect, types):
+REFERENCE = {
+    'tri': [[(0, 0, 0), (1, 0, 0), (1, 1, 0)], [(0, 0, 0), (1, 1, 0), (0, 1, 0)]],
+    'quad': [[(0, 0, 0), (1, 0, 0), (1, 1, 0), (0, 1, 0)]],
+    'tet': [[(0, 0, 0), (1, 0, 0), (1, 1, 0), (0, 0, 1)], [(1, 0, 0), (1, 1, 1), (0, 0, 1), (1, 0, 1)],
+            [(1, 0, 0), (1, 1, 0), (0, 0, 1), (1, 1, 1)], [(0, 0, 0), (1, 1, 0), (0, 1, 0), (0, 1, 1)],
+            [(0, 0, 0), (1, 1, 0), (0, 1, 1), (0, 0, 1)], [(1, 1, 0), (0, 1, 1), (0, 0, 1), (1, 1, 1)]],
+    'hex': [[(0, 0, 0), (1, 0, 0), (1, 1, 0), (0, 1, 0), (0, 0, 1), (1, 0, 1), (1, 1, 1), (0, 1, 1)]],
+}
+
+
+def gen(fn, expect, types, strict_layout=True):
     seen = {}
     templates = {}
     for s in fn.body:
@@ -122,24 +137,29 @@ def gen(fn, expect, types):
                     raise TranslateError(f'{fn.name}: type chain must end in raise')
                 break
             continue
+        if not strict_layout:
+            continue
         txt = ast.unparse(s)
         hit = [k for k, v in expect.items() if v == txt]
         if len(hit) != 1 or hit[0] in seen:
             raise TranslateError(f'{fn.name}: unexpected statement {txt!r}')
         seen[hit[0]] = True
-    if set(seen) != set(expect):
+    if strict_layout and set(seen) != set(expect):
         raise TranslateError(f'{fn.name}: missing statements {sorted(set(expect) - set(seen))}')
     if sorted(templates) != sorted(types):
         raise TranslateError(f'{fn.name}: element types {sorted(templates)}')
     return templates
 
 
-def translate(repo):
+def translate(repo, strict_layout=True):
     p = Path(repo) / 'femio' / 'util' / 'brick_generator.py'
     src = p.read_text()
     tree = ast.parse(src)
-    t2 = gen(function(tree, '_generate_brick_2d'), EXPECT_2D, ['tri', 'quad'])
-    t3 = gen(function(tree, '_generate_brick_3d'), EXPECT_3D, ['tet', 'hex'])
+    t2 = gen(function(tree, '_generate_brick_2d'), EXPECT_2D, ['tri', 'quad'], strict_layout)
+    t3 = gen(function(tree, '_generate_brick_3d'), EXPECT_3D, ['tet', 'hex'], strict_layout)
+    consumed = {'util/brick_generator.py': hashlib.sha256(src.encode()).hexdigest()}
+    if not strict_layout:
+        return {**t2, **t3}, consumed
     top = function(tree, 'generate_brick')
     txt = ast.unparse(top)
     for e in EXPECT_TOP:
@@ -151,7 +171,6 @@ def translate(repo):
                  'x_length=x_length, y_length=y_length, z_length=z_length)'):
         if txt.count(call) != 1:
             raise TranslateError(f'generate_brick: expected call {call!r}')
-    consumed = {'util/brick_generator.py': hashlib.sha256(src.encode()).hexdigest()}
     return {**t2, **t3}, consumed
 
 
